@@ -449,6 +449,22 @@ func capLenEqual(c1, c2, l1, l2 int) bool {
 	return l1 == l2
 }
 
+/*
+sliceElem returns the value held by a slice or array element
+once any interface envelope ([]any) and pointers are removed.
+The zero [reflect.Value] stands for a nil element.
+*/
+func sliceElem(v reflect.Value) reflect.Value {
+	if v.Kind() == reflect.Interface {
+		v = v.Elem()
+	}
+	if v.IsValid() {
+		_, v, _ = derefPtr(v.Type(), v)
+	}
+
+	return v
+}
+
 func slicesEqual(x, y any) (err error) {
 
 	_, xrv, xrk := derefPtr(assertReflect(x))
@@ -465,8 +481,8 @@ func slicesEqual(x, y any) (err error) {
 	}
 
 	for i := 0; i < xrv.Len() && err == nil; i++ {
-		_, xv, _ := derefPtr(xrv.Index(i).Type(), xrv.Index(i))
-		_, yv, _ := derefPtr(yrv.Index(i).Type(), yrv.Index(i))
+		xv := sliceElem(xrv.Index(i))
+		yv := sliceElem(yrv.Index(i))
 
 		// a nil pointer dereferences to nothing: it
 		// equals only another nil, and there is no
@@ -484,7 +500,14 @@ func slicesEqual(x, y any) (err error) {
 			continue
 		}
 
-		err = valuesEqual(xv, yv)
+		// hand over the values themselves, not their
+		// reflections: Stack and Condition elements
+		// are recognized by type.
+		if xv.CanInterface() && yv.CanInterface() {
+			err = valuesEqual(xv.Interface(), yv.Interface())
+		} else {
+			err = valuesEqual(xv, yv)
+		}
 	}
 
 	return
